@@ -135,3 +135,36 @@ Proof.
   apply (run_meaning_mix c (v_expr v) om os nd a benv en p Hmix Hne HL Hwf Hinp Htrim Hall Hord Hvalid Hdom
            (fun k l => sub_facts pick fuel v c k l Hne Hc) Hdet Hsords Hic Hprint Hstrip Henv ws Hamb).
 Qed.
+
+From CG Require Import Spec.KnownC01 Proofs.SubBridge Proofs.BashMeaningAll.
+
+(** The whole decided domain: literals, commands, undefined nonterminals, and within-word
+    expressions over the same kinds of pieces, outside [KnownC01.greedy_shadow]. *)
+Theorem bash_meaning_all :
+  forall pick fuel v c om os nd a (benv : BashSem.env) (en : Meaning.env) ws p,
+    sub_tree (v_expr v) = true -> alts_nonempty (v_expr v) = true ->
+    compile_valid pick fuel v = Ok c ->
+    all_tables Bash c om os = Ok (nd, a) -> NoDup om -> valid_literal_order (c_main c) om = true ->
+    sub_orders_ok c os -> subs_deterministic c ->
+    C01_domain (v_expr v) = true -> C01_env_ok (v_expr v) en = true ->
+    BashSem.e_ignore_case benv = false -> BashSem.e_wordbreaks benv = Meaning.e_wordbreaks en ->
+    breaks_ok (BashSem.e_wordbreaks benv) = true -> plain p = true -> printable_str p = true ->
+    (forall cm cid, Tables.index_of cm (a_commands a) = Some cid ->
+                    spec_candidates (cmd_output benv cid) = candidates en cm) ->
+    ambiguous_run en (start (v_expr v)) ws = false ->
+    greedy_shadow (v_expr v) en ws = false ->
+    match complete (v_expr v) en ws p with
+    | None => exists log, run_from Repaired (d_start (c_main c)) a benv ws p = Ok (mkresult 1 [] log)
+    | Some (req, al) =>
+        exists reply log, run_from Repaired (d_start (c_main c)) a benv ws p = Ok (mkresult 0 reply log)
+                          /\ (forall x, In x reply <-> In x req) /\ incl req al
+    end.
+Proof.
+  intros pick fuel v c om os nd a benv en ws p Htree Hne Hc Hall Hord Hvalid Hsords Hdet Hdom Henvok Hic Hwb Hbok Hplain Hprint Henv Hamb Hgs.
+  destruct (compiled_facts pick fuel v c Hne Hc) as [HL [Hwf [Hinp Htrim]]].
+  assert (Hstrip : forall ms, (forall m, In m ms -> String.prefix p m = true) ->
+                              strip_reply benv p ms = Ok (map (Meaning.strip (Meaning.e_wordbreaks en) p) ms)).
+  { intros ms Hms. rewrite <- Hwb. apply strip_reply_plain; assumption. }
+  apply (run_meaning_all c (v_expr v) om os nd a benv en p Htree Hne HL Hwf Hinp Htrim Hall Hord Hvalid Hdom Henvok
+           (fun k l => sub_facts pick fuel v c k l Hne Hc) Hdet Hsords Hic Hprint Hstrip Henv ws Hamb Hgs).
+Qed.
